@@ -11,6 +11,17 @@ E3 = "bounded exhaustive enumeration of inputs/programs/configurations executed 
 
 # pid -> (technique, level text, level note, design ref)
 CHECKS = {
+    "C10": (
+        E1,
+        "A scripted probe Actor (sequences of up to 3 _run invocations with await points, outcomes return / Exception / "
+        "BaseException / hang, reactions to cancellation propagate / swallow / raise-in-cleanup; restart limits 0,1,2,unlimited; "
+        "extra tasks) on the virtual loop with every placement of up to 3 start/cancel/stop/wait events at quiescent points and "
+        "one placement between two loop iterations; trace invariants: re-invoked iff previous run raised an Exception without "
+        "cancellation and below the limit, after the restart delay, never two runs at once, stop() returns, waits for and "
+        "surfaces the errors of all tasks; run(a, b) returns exactly when both finished.",
+        "Virtual clock; a concurrent start() racing with a pending stop() is outside the property; horizon 14 s.",
+        "DESIGN.md §3 C10",
+    ),
     "C09": (
         E2,
         "BFS over update histories (in/out of order, gaps, jumps beyond capacity, off-grid timestamps incl. half-period ties, "
